@@ -178,10 +178,10 @@ def units(tier):
     for m in extract.MODELS:
         for n in range(2, nmax + 1):
             svs = size_vectors(n, tier)
-            for sizes in (svs[:3] if tier == "quick" else svs):
+            for sizes in ((svs[:3] + [s for s in svs if max(s) > 4]) if tier == "quick" else svs):
                 if m in FULL or any(s > 1 for s in sizes):
                     us.append(("unit_compute", (m, sizes)))
-        for sizes in ([(1, 1), (2, 1), (1, 1, 1)] if tier == "quick" else [(1, 1), (2, 1), (1, 1, 1), (1, 2, 1)]):
+        for sizes in ([(1, 1), (2, 1), (5, 2), (1, 1, 1)] if tier == "quick" else [(1, 1), (2, 1), (5, 2), (1, 1, 1), (1, 2, 1)]):
             n = len(sizes)
             for perm in itertools.permutations(range(n)):
                 if list(perm) != list(range(n)):
